@@ -12,6 +12,7 @@ Driver for C03. Input lines (fields separated by blanks), written by
   orig <hex> <verdict>                 generated bundle with a CRC on every block, re-parsed
   mut  <orighex> <off> <xorhex> <verdict>   ParseBundle on orig with xorhex xor-ed in at byte off
   direct <name> <hex> <verdict>        hand-made encodings
+  adversarial <hex> <off> <xorhex> <verdict> <verdict-mutated>   crafted payload, one bit of its length flipped
 
   verdict = accept | crc | other | panic
 
@@ -211,6 +212,16 @@ def handle (st : St) (line : String) : St × String :=
           else if frameOnly then some "accepted-corrupted-frame" else none
         (st', judgeParsed go mutated extra undel)
     | _, _ => (st, "skip parse")
+  | ["adversarial", h, off, x, go, goM] =>
+    -- crafted payload (boundary moves onto a CRC item inside the payload): outside the property's claim,
+    -- only model vs. implementation is compared
+    match parseHex h, off.toNat?, parseHex x with
+    | some bs, some off, some x =>
+      let m1 := parseBundleWith crcCalcFast bs
+      let m2 := parseBundleWith crcCalcFast (xorAt bs off x)
+      if showVerdict m1 == go && showVerdict m2 == goM then (st, s!"ok adversarial {go} {goM}")
+      else (st, s!"diff adversarial model={showVerdict m1},{showVerdict m2} go={go},{goM}")
+    | _, _, _ => (st, "skip parse")
   | ["direct", _, h, go] =>
     match parseHex h with
     | some bs => (st, judgeParsed go bs (fun _ => none) none)
